@@ -1,8 +1,17 @@
 import CnlDriver.CS
-/-! `C20` driver table (stub). -/
+import CnlModel.Exp2
+/-! `C20` driver table. -/
 namespace Cnl.Drv
 open Cnl
 
-def checkC20 (_toks : List String) (_res : String) : Option Verdict := none
+def showExp2 (r : Res Int) : String := showRes (fun v => toString v) r
+
+def checkC20 (toks : List String) (_res : String) : Option Verdict :=
+  match toks with
+  | ["exp2", ty, e, r] => do
+    let t ← parseIntTy ty; let e ← e.toInt?; let r ← r.toInt?
+    let f : Exp2.Fmt := ⟨t.bits, t.signed, e⟩
+    some { model := showExp2 (Exp2.exp2 f r), branch := "exp2" }
+  | _ => none
 
 end Cnl.Drv
